@@ -1,7 +1,9 @@
 package props
 
 import (
+	"fmt"
 	"go/ast"
+	"go/constant"
 	"go/token"
 	"go/types"
 	"strings"
@@ -517,6 +519,212 @@ func c13(c *an.Ctx) {
 			}
 		}
 		ruleParseBinlogRow(c, o)
+	})
+
+	c.Check("R-BOOL", "decision tables of the in-memory filter test: Tester.Test is false for a nil row, a Valuer error or any unequal column and true only when every column compared equal; driverValuesEqual is false for different kinds, compares []byte by content and everything else with ==", 4, func(o *an.O) {
+		// --- driverValuesEqual ---------------------------------------------------------
+		dv := c.NeedFunc(sg, "driverValuesEqual")
+		kindOf := func(v ssa.Value) int { // Kind() of reflect.ValueOf(param k) -> k+1, else 0
+			call, ok := v.(*ssa.Call)
+			if !ok {
+				return 0
+			}
+			f := an.CalleeFunc(call.Common())
+			if f == nil || f.Name() != "Kind" || len(call.Call.Args) != 1 {
+				return 0
+			}
+			vo, ok := call.Call.Args[0].(*ssa.Call)
+			if !ok || len(vo.Call.Args) != 1 {
+				return 0
+			}
+			arg := an.StripConv(vo.Call.Args[0])
+			if ci, ok := arg.(*ssa.ChangeInterface); ok {
+				arg = ci.X
+			}
+			for k, pa := range dv.Params {
+				if arg == ssa.Value(pa) {
+					return k + 1
+				}
+			}
+			return 0
+		}
+		rp := p.ExtPkg("reflect")
+		an.Need(rp != nil, "package reflect")
+		sliceKind, _ := constant.Int64Val(rp.Types.Scope().Lookup("Slice").(*types.Const).Val())
+		seenAtoms := map[string]bool{}
+		for mask := 0; mask < 128; mask++ {
+			kindsEq, s1, s2, ok1, ok2, bytesEq, ifaceEq := mask&1 != 0, mask&2 != 0, mask&4 != 0, mask&8 != 0, mask&16 != 0, mask&32 != 0, mask&64 != 0
+			if kindsEq && s1 != s2 {
+				continue // equal kinds: both are slices or neither is
+			}
+			if (ok1 && !s1) || (ok2 && !s2) {
+				continue // a []byte has kind Slice
+			}
+			sim := &an.BoolSim{Fn: dv, Atom: func(v ssa.Value) (bool, bool) {
+				switch x := v.(type) {
+				case *ssa.BinOp:
+					if x.Op != token.EQL && x.Op != token.NEQ {
+						return false, false
+					}
+					eq := x.Op == token.EQL
+					kx, ky := kindOf(x.X), kindOf(x.Y)
+					if kx != 0 && ky != 0 && kx != ky {
+						seenAtoms["kinds"] = true
+						return kindsEq == eq, true
+					}
+					for _, pr := range [][2]ssa.Value{{x.X, x.Y}, {x.Y, x.X}} {
+						if k := kindOf(pr[0]); k != 0 {
+							if n, ok := an.ConstInt(pr[1]); ok && n == sliceKind {
+								seenAtoms["slice"] = true
+								isS := s1
+								if k == 2 {
+									isS = s2
+								}
+								return isS == eq, true
+							}
+						}
+						if call, ok := pr[0].(*ssa.Call); ok {
+							if f := an.CalleeFunc(call.Common()); f != nil && f.Pkg() != nil && f.Pkg().Path() == "bytes" && (f.Name() == "Compare" || f.Name() == "Equal") {
+								if n, ok := an.ConstInt(pr[1]); ok && n == 0 {
+									seenAtoms["bytes"] = true
+									return bytesEq == eq, true
+								}
+							}
+						}
+					}
+					// dv1 == dv2
+					strip := func(v ssa.Value) ssa.Value {
+						if ci, ok := v.(*ssa.ChangeInterface); ok {
+							return ci.X
+						}
+						return v
+					}
+					a, b := strip(x.X), strip(x.Y)
+					if (a == ssa.Value(dv.Params[0]) && b == ssa.Value(dv.Params[1])) || (a == ssa.Value(dv.Params[1]) && b == ssa.Value(dv.Params[0])) {
+						seenAtoms["iface"] = true
+						return ifaceEq == eq, true
+					}
+				case *ssa.Call:
+					if f := an.CalleeFunc(x.Common()); f != nil && f.Pkg() != nil && f.Pkg().Path() == "bytes" && f.Name() == "Equal" {
+						seenAtoms["bytes"] = true
+						return bytesEq, true
+					}
+				case *ssa.Extract:
+					if ta, ok := x.Tuple.(*ssa.TypeAssert); ok && x.Index == 1 && ta.CommaOk {
+						src := ta.X
+						if ci, ok := src.(*ssa.ChangeInterface); ok {
+							src = ci.X
+						}
+						if src == ssa.Value(dv.Params[0]) {
+							seenAtoms["assert"] = true
+							return ok1, true
+						}
+						if src == ssa.Value(dv.Params[1]) {
+							seenAtoms["assert"] = true
+							return ok2, true
+						}
+					}
+				}
+				return false, false
+			}}
+			sim.Run()
+			got := sim.ReturnedBools(0)
+			var want bool
+			switch {
+			case !kindsEq:
+				want = false
+			case s1 || s2:
+				want = ok1 && ok2 && bytesEq
+			default:
+				want = ifaceEq
+			}
+			if len(got) != 1 || !got[fmt.Sprint(want)] {
+				o.Fail(p.Pos(dv.Pos()), "driverValuesEqual(kinds equal=%v, slice kinds=%v/%v, []byte=%v/%v, same bytes=%v, ==:%v) returns %v, expected %v: a row would (not) match the filter it was read with", kindsEq, s1, s2, ok1, ok2, bytesEq, ifaceEq, keysOf(got), want)
+				break
+			}
+		}
+		o.SitePos(p.Pos(dv.Pos()))
+		for _, a := range []string{"kinds", "slice", "bytes", "iface", "assert"} {
+			if !seenAtoms[a] {
+				o.Fail(p.Pos(dv.Pos()), "driverValuesEqual has no %s test", a)
+			}
+		}
+		// --- tester.Test -----------------------------------------------------------------
+		tt := c.NeedFunc(sg, "(*tester).Test")
+		o.SitePos(p.Pos(tt.Pos()))
+		eqCalls := an.Calls(tt, an.Mod(sg, "", "driverValuesEqual"))
+		if len(eqCalls) == 0 {
+			o.Fail(p.Pos(tt.Pos()), "Tester.Test does not compare with driverValuesEqual")
+			return
+		}
+		o.Site(eqCalls[0])
+		h := an.LoopHeaderOf(eqCalls[0])
+		an.Need(h != nil, "loop over the filter columns in Tester.Test")
+		var valueCalls []ssa.Value // the two Valuer(...).Value() calls, in order
+		an.Instrs(tt, func(i ssa.Instruction) {
+			if cc := an.CallOf(i); cc != nil {
+				if f := an.CalleeFunc(cc); f != nil && f.Name() == "Value" && an.LoopHeaderOf(i) == h {
+					valueCalls = append(valueCalls, i.(ssa.Value))
+					o.Site(i)
+				}
+			}
+		})
+		an.Need(len(valueCalls) == 2, "two Valuer.Value calls per column in Tester.Test")
+		for mask := 0; mask < 16; mask++ {
+			rowNil, e1, e2, eq := mask&1 != 0, mask&2 != 0, mask&4 != 0, mask&8 != 0
+			sim := &an.BoolSim{Fn: tt, Atom: func(v ssa.Value) (bool, bool) {
+				if call, ok := v.(*ssa.Call); ok && call == eqCalls[0] {
+					return eq, true
+				}
+				bo, ok := v.(*ssa.BinOp)
+				if !ok || (bo.Op != token.EQL && bo.Op != token.NEQ) || !isConstNil(bo.Y) {
+					return false, false
+				}
+				isEq := bo.Op == token.EQL
+				x := bo.X
+				if ci, ok := x.(*ssa.ChangeInterface); ok {
+					x = ci.X
+				}
+				if x == ssa.Value(tt.Params[1]) {
+					return rowNil == isEq, true
+				}
+				if ex, ok := x.(*ssa.Extract); ok {
+					for k, vc := range valueCalls {
+						if ex.Tuple == vc {
+							failed := e1
+							if k == 1 {
+								failed = e2
+							}
+							return failed != isEq, true
+						}
+					}
+				}
+				return false, false
+			}}
+			sim.Run()
+			got := sim.ReturnedBools(0)
+			back := false
+			for k, pred := range h.Preds {
+				if sim.In[h][k] && h.Dominates(pred) {
+					back = true
+				}
+			}
+			allMatch := !rowNil && !e1 && !e2 && eq
+			switch {
+			case rowNil:
+				if got["true"] || got["?"] {
+					o.Fail(p.Pos(tt.Pos()), "Tester.Test can answer true for a nil row")
+				}
+			case allMatch:
+				if got["false"] || !got["true"] || !back {
+					o.Fail(p.Pos(tt.Pos()), "Tester.Test does not answer true for a row all of whose filter columns compare equal (returns %v, next column reached: %v)", keysOf(got), back)
+				}
+			default:
+				if back {
+					o.Fail(p.Pos(tt.Pos()), "Tester.Test goes on to the next column although this one did not match (valuer errors %v/%v, equal=%v): a row that does not satisfy the filter would be reported as matching", e1, e2, eq)
+				}
+			}
+		}
 	})
 
 	c.Check("R-PAIR", "MakeTester collects column and value in lock step; Tester.Test compares per column with driverValuesEqual; byte slices compared by content", 4, func(o *an.O) {
